@@ -5,7 +5,7 @@ import itertools
 LEVEL = 'exploration'
 SHARDS = {'quick': 1, 'thorough': 8}
 
-KINDS = ['int', 'str', 'tuple2', 'dict', 'none_first']
+KINDS = ['int', 'str', 'tuple2', 'dict', 'none_first', 'stamped']
 
 
 def make_values(kind, n_changes):
@@ -20,6 +20,9 @@ def make_values(kind, n_changes):
         return [{'yay': i, 'nay': 0} for i in range(n_changes + 1)]
     if kind == 'none_first':
         return [None] + list(range(1, n_changes + 1))
+    if kind == 'stamped':
+        # every level reads a different object (value, level); equality is decided by the caller's `equals` on the value part
+        return [('state-%d' % i,) for i in range(n_changes + 1)]
     raise KeyError(kind)
 
 
@@ -29,7 +32,8 @@ def judge(ctx, last, head, changes, step, kind):
     vals = make_values(kind, len(changes))
 
     def value_at(level):
-        return vals[sum(1 for c in changes if c <= level)]
+        v = vals[sum(1 for c in changes if c <= level)]
+        return (v[0], level) if kind == 'stamped' else v
 
     probes = []
 
@@ -38,6 +42,8 @@ def judge(ctx, last, head, changes, step, kind):
         return value_at(level)
 
     def equals(a, b):
+        if kind == 'stamped':
+            return (a[0] if a is not None else None) == (b[0] if b is not None else None)
         return a == b
 
     case = {'last': last, 'head': head, 'changes': changes, 'step': step, 'kind': kind}
